@@ -248,9 +248,9 @@ Theorem request_calls_authenticate h cfg o c : request_file h cfg o = Ok c ->
 Proof.
   unfold request_file. intros H.
   apply bind_ok in H as [imports [_ H]]. apply bind_ok in H as [imports2 [_ H]]. apply bind_ok in H as [rstruct [_ H]].
-  apply bind_ok in H as [reqd [_ H]]. apply bind_ok in H as [sname [_ H]]. apply bind_ok in H as [response [_ H]].
+  apply bind_ok in H as [reqd [_ H]]. apply bind_ok in H as [sname [_ H]].
   apply bind_ok in H as [method [Hm H]]. apply bind_ok in H as [url [Hu H]]. apply bind_ok in H as [builders [_ H]].
-  apply bind_ok in H as [assigns [Ha H]]. apply bind_ok in H as [cm [_ H]]. apply bind_ok in H as [cid [_ H]].
+  apply bind_ok in H as [assigns [Ha H]]. apply bind_ok in H as [output [_ H]]. apply bind_ok in H as [cm [_ H]]. apply bind_ok in H as [cid [_ H]].
   apply bind_ok in H as [model_import [_ H]].
   assert (Em : method = ts (o_method o)).
   { unfold ident in Hm. destruct (ident_new_ok (o_method o)); [|discriminate]. apply Ok_inj in Hm. auto. }
@@ -317,4 +317,49 @@ Theorem from_env_field_var cfg fname loc s : from_env_field cfg (fname, loc) = O
 Proof.
   unfold from_env_field. intros H. apply bind_ok in H as [fid [Hf H]]. apply Ok_inj in H. subst s.
   exists fid. destruct loc; eexists; (split; [exact Hf|]); try (left; reflexivity); right; reflexivity.
+Qed.
+
+(* ================= C16: examples ================= *)
+(* the example declares one `let` per required input, passes them (positionally or as the fields of the
+   required-arguments struct), chains one setter per optional input, and calls the operation's method once *)
+Theorem example_shape fuel h cfg o c : example_file fuel h cfg o = Ok c ->
+  exists decls fn_args optionals cid opid imp3,
+    mapM (fun p => do id <- field_ident (p_name p); do v <- example_value fuel h (p_ty p) (p_name p) true;
+                   Ok (t "let" ++ id ++ t "=" ++ v ++ t ";")) (required_params o) = Ok decls /\
+    mapM (fun p => do id <- field_ident (p_name p); do v <- example_value fuel h (p_ty p) (p_name p) true;
+                   Ok (t "." ++ id ++ t "(" ++ v ++ t ")")) (optional_params o) = Ok optionals /\
+    field_ident (o_name o) = Ok opid /\
+    c = t "#![allow(unused_imports)] use" ++ ts (package_name (c_name cfg)) ++ t ":: model :: * ; use" ++ ts (package_name (c_name cfg)) ++ t ":: {" ++ cid ++ t "};" ++ imp3 ++
+        t "#[tokio::main] async fn main() { let client =" ++ cid ++ t "::from_env();" ++ concat decls ++
+        t "let response = client ." ++ opid ++ t "(" ++ fn_args ++ t ")" ++ concat optionals ++
+        t ".await.unwrap(); println!(" ++ sl (lit "{:#?}") ++ t ", response); }".
+Proof.
+  unfold example_file. intros H. apply bind_ok in H as [decls [Hd H]]. apply bind_ok in H as [fn_args [_ H]].
+  apply bind_ok in H as [optionals [Ho H]]. apply bind_ok in H as [u [_ H]]. apply bind_ok in H as [cid [_ H]].
+  apply bind_ok in H as [imp3 [_ H]]. apply bind_ok in H as [opid [Hop H]]. apply Ok_inj in H. subst c.
+  exists decls, fn_args, optionals, cid, opid, imp3. repeat split; assumption.
+Qed.
+
+(* the recursion has no visited set: on a schema that contains itself through a plain member the synthesis never
+   returns, whatever the fuel — this is the stack overflow of the real process (open finding) *)
+Definition node_hir : hirspec :=
+  {| h_ops := [];
+     h_schemas := [(lit "Node", RStruct (lit "Node") false
+                      [(lit "child", {| f_ty := TModel (lit "Node"); f_optional := false; f_doc := None; f_flatten := false |})] None)];
+     h_servers := []; h_security := []; h_docs_url := None |}.
+
+Theorem example_diverges_on_cycle : forall fuel name b, example_value fuel node_hir (TModel (lit "Node")) name b = Err EDiverge.
+Proof.
+  induction fuel as [|f IH]; intros name b; [reflexivity|].
+  cbn [example_value]. change (assoc (h_schemas node_hir) (lit "Node")) with
+    (Some (RStruct (lit "Node") false [(lit "child", {| f_ty := TModel (lit "Node"); f_optional := false; f_doc := None; f_flatten := false |})] None)).
+  cbn [mapM f_ty f_optional]. rewrite IH. reflexivity.
+Qed.
+
+Theorem implements_default_diverges_on_cycle : forall fuel, ty_implements_default fuel node_hir (TModel (lit "Node")) = Err EDiverge.
+Proof.
+  induction fuel as [|f IH]; [reflexivity|].
+  cbn [ty_implements_default]. change (assoc (h_schemas node_hir) (lit "Node")) with
+    (Some (RStruct (lit "Node") false [(lit "child", {| f_ty := TModel (lit "Node"); f_optional := false; f_doc := None; f_flatten := false |})] None)).
+  cbn [record_fields map snd f_ty]. rewrite IH. reflexivity.
 Qed.
